@@ -246,11 +246,45 @@ def write_replay(prop, payload):
     return p
 
 
+def _start_watchdog(prop, tier, seed, ctx, proof):
+    """A check must return even if the code under test blocks for ever (a deadlock introduced by a change is a
+    behaviour the models do not have). After a generous deadline a daemon thread reports the broken correspondence
+    (VIOLATION ... no-failing-input-found: the replay names what was running) and ends the process with exit 1."""
+    import threading
+    deadline = float(os.environ.get("EKW_CHECK_DEADLINE_S", "1500" if tier == "quick" else "14400"))
+
+    def fire():
+        try:
+            rp = write_replay(prop, {"property": prop, "kind": "no-failing-input-found", "seed": seed, "tier": tier,
+                                     "correspondence_broken": [{"where": "check-deadline", "model": "every modelled operation returns",
+                                                                "impl": f"the check did not finish within {deadline:.0f} s: the real code (or the harness driving it) blocks; "
+                                                                        f"cases completed so far: {ctx.evaluations}", "case": (ctx.samples[-1:] or [None])[0]}],
+                                     "proof_broken": proof.get("broken", []),
+                                     "explanation": "the model/implementation correspondence could not be completed; no failing input was isolated"})
+            ev = {"property_id": prop, "tier": tier, "seed": seed, "level": "proof",
+                  "coverage": {"obligations": max(1, proof.get("obligations", 0)), "discharged": proof.get("discharged", 0),
+                               "checker_cmd": "cd lean && lake build <Props modules>", "trusted_base": TRUSTED_BASE,
+                               "evaluations": ctx.evaluations, "distinct_nontrivial": len(ctx.nontrivial_keys), "samples": ctx.samples[:3] or [{}],
+                               "rule": "run aborted by the check deadline", "notes": ["check deadline exceeded"]},
+                  "assumptions": [], "wall_s": round(time.time() - ctx.t0, 2), "violations": 1}
+            EVIDENCE_DIR.mkdir(exist_ok=True)
+            (EVIDENCE_DIR / f"{prop}.json").write_text(json.dumps(ev, indent=1, default=str))
+            print(f"VIOLATION property={prop} replay={rp} no-failing-input-found", flush=True)
+            print(f"[{prop}] check deadline of {deadline:.0f} s exceeded -> exit 1", flush=True)
+        finally:
+            os._exit(1)
+    t = threading.Timer(deadline, fire)
+    t.daemon = True
+    t.start()
+    return t
+
+
 def run_property(mod, tier: str, seed: int) -> int:
     prop = mod.PROPERTY
     ctx = Ctx(prop, tier, seed)
     out_lines = []
     proof = {"obligations": 0, "discharged": 0, "theorems": [], "axioms": {}, "broken": []}
+    _start_watchdog(prop, tier, seed, ctx, proof)
     try:
         # 1. translate
         if hasattr(mod, "translate"):
